@@ -253,9 +253,15 @@ def _block(b, out):
         out.append("")
     elif k == "tab":
         ncol = max(len(r) for r in b["rows"])
-        out.append(r"\begin{tabular}{%s}" % ("l" * ncol))
-        out.append(" \\\\\n".join(" & ".join(tex_escape(c["s"]) for c in row)
-                                  for row in b["rows"]))
+        gap = b.get("gap")              # an empty cell at this position of every row
+
+        def cells(row):
+            cs = [tex_escape(c["s"]) for c in row]
+            if gap is not None:
+                cs.insert(min(gap, len(cs)), "")
+            return cs
+        out.append(r"\begin{tabular}{%s}" % ("l" * (ncol + (gap is not None))))
+        out.append(" \\\\\n".join(" & ".join(cells(row)).strip() for row in b["rows"]))
         out.append(r"\end{tabular}")
         out.append("")
     elif k == "float":
@@ -731,7 +737,8 @@ def doc_strategy(leaf=None, title_leaf=None, max_units=8, max_blocks=3, classes=
         if k == "tab":
             nc = draw(st.integers(1, 3))
             nr = draw(st.integers(1, 2))
-            return {"k": "tab", "rows": [[draw(leaf()) for _ in range(nc)] for _ in range(nr)]}
+            return {"k": "tab", "rows": [[draw(leaf()) for _ in range(nc)] for _ in range(nr)],
+                    "gap": draw(st.sampled_from([None, None, 0, 1, 9]))}
         if k == "float":
             return {"k": "float", "env": draw(st.sampled_from(["figure", "table"])),
                     "leaf": draw(leaf()), "cap": draw(leaf()),
